@@ -245,6 +245,9 @@ def scenario(t, g, enc, rng, res, getter):
     elif getter == "get_column":
         x = pick_x(cols=True)
         c = x if rng.random() < 0.7 else TL.alpha(x)
+        if isinstance(c, int) and 0 <= x < W and rng.random() < 0.3:
+            c = x - W  # the same column counted from the end
+            tags += ["negative"]
         call["x"] = c
         objs.append((t.get_column(c), "column", x, None, False))
         tags += ["beyond" if x >= W else ("run" if _in_run(enc.cols, x) else "plain")]
@@ -264,8 +267,16 @@ def scenario(t, g, enc, rng, res, getter):
             else:
                 # column range over all rows: "B:D" or a 4-tuple whose row part differs from the column part
                 form = rng.random()
-                if form < 0.4:
+                if form < 0.3:
                     coord = f"{TL.alpha(x)}:{TL.alpha(z)}"
+                elif form < 0.45:
+                    # the short forms: a column range, a single column, also counted from the end
+                    zz = min(z, W - 1)
+                    coord = rng.choice([(x, zz), [x, zz], (x - W, zz - W) if x else (x, zz)])
+                    z = zz
+                elif form < 0.5:
+                    coord = rng.choice([(x,), [x]])
+                    z = x
                 elif form < 0.7:
                     coord = (x, 0, z, max(H - 1, 0) + rng.randint(0, 3))
                 else:
@@ -279,8 +290,12 @@ def scenario(t, g, enc, rng, res, getter):
             objs.append((c, "column", xx, None, True))
     elif getter == "get_column_cells":
         x = pick_x(cols=True)
-        call["x"] = x
-        got = t.get_column_cells(x)
+        xa = x
+        if 0 <= x < W and rng.random() < 0.35:
+            xa = x - W  # counted from the end of the TABLE, whatever the width of each stored row
+            tags += ["negative"]
+        call["x"] = xa
+        got = t.get_column_cells(xa)
         if len(got) != H:
             out.append(("count:get_column_cells", {"got": len(got), "expected": H, "call": call}))
         for yy, c in enumerate(got[:H]):
